@@ -187,8 +187,10 @@ static void run_history(vh::Ctx & c, vh::Rng & r, int m, bool is_float)
       c.cat("problem_written_through_kept_references");
     } else {
       fill(reused, p, true);
+      // (references taken here, not before the next solve: a non-const getJ() is itself an API event)
+      kept_J = &reused.getJ(); kept_Y = &reused.getY(); kept_W = &reused.getW();
     }
-    kept_J = &reused.getJ(); kept_Y = &reused.getY(); kept_W = &reused.getW(); kept_n = p.n; prev_precond = p.precond;
+    kept_n = p.n; prev_precond = p.precond;
     VecL x = solve(reused, p.method);
     auto wit = [&]() {
         return vh::J().s("history", trace).s("method", p.method).f("n", p.n).f("m", m).f("cond_JtJ", cond)
